@@ -52,6 +52,29 @@ theorem accepted_text_roundtrip (text : String) (p : Program) (hp : parseProgram
   have h := accepted_text_wf text p hp
   ⟨roundtrip p h, print_parse_print p h⟩
 
+/-- **The round trip for the parser as it is** (grammar + range check of numerals, since the
+    numeral-range fix): whatever text anthem accepts as a program, the printed tree is accepted again and
+    parses to the identical tree, and prints to itself. -/
+theorem accepted_text_roundtrip_checked (text : String) (p : Program) (hp : parseProgramChecked text = some p) :
+    parseProgramChecked (printProgram p) = some p ∧
+      (parseProgramChecked (printProgram p)).map printProgram = some (printProgram p) := by
+  unfold parseProgramChecked at hp
+  cases h0 : parseProgram text with
+  | none => simp [h0] at hp
+  | some p0 =>
+    simp only [h0] at hp
+    split at hp
+    · rename_i hr
+      injection hp with hp
+      subst hp
+      have hrt := (accepted_text_roundtrip text p0 h0).1
+      have : parseProgramChecked (printProgram p0) = some p0 := by
+        unfold parseProgramChecked
+        rw [hrt]
+        simp only [hr, if_true]
+      exact ⟨this, by rw [this]; rfl⟩
+    · cases hp
+
 /-- the symbol lexer never returns the name `not` -/
 theorem not_is_no_name {cs l r : List Char} (h : lexSymbol cs = some (l, r)) : l ≠ ['n', 'o', 't'] :=
   lexSymbol_not_not h
